@@ -456,95 +456,107 @@ func ruleS3(p *Prog, r *Report) {
 	nDel, nCache := 0, 0
 	for _, top := range sortedFuncs(p, keysOf(bw)) {
 		eachInstrDeep(top, func(fn *ssa.Function, in ssa.Instruction) {
-			fw, ok := p.fieldWriteOfX(in)
-			if !ok || fw.Ref.Owner == nil || fw.Ref.Owner.Obj().Name() != storageT {
-				return
-			}
-			switch {
-			case fw.Ref.Field == "deltas" && fw.Kind == "mapdelete":
-				nDel++
-				cons := fmt.Sprintf("delete-deltas:%s", p.Name(fn))
-				hits, complete := p.precedingBaseWrites(fn, in, fw.Key)
-				if !complete || len(hits) == 0 {
-					r.Bad(R, cons, p.InstrPos(in), "a write-set entry is deleted on a path on which no BaseStorage.Store/Remove of the same id has been issued: the change would be lost")
-					return
+			for _, fw := range p.fieldWritesOfX(in) {
+				if fw.Ref.Owner == nil || fw.Ref.Owner.Obj().Name() != storageT {
+					continue
 				}
-				for _, h := range hits {
-					hv := callValue(h)
-					if hv == nil || !knownNil(hv, in.Block()) {
-						r.Bad(R, cons, p.InstrPos(in), fmt.Sprintf("delete of the write-set entry is not dominated by the err == nil edge of the register write at %s: a failed write would still drop the pending change", p.InstrPos(h)))
-						return
-					}
-				}
-				r.Ok(R, cons, p.InstrPos(in), fmt.Sprintf("preceded on all paths by %d register write(s) of the same id, on their err == nil edge", len(hits)))
-				// the read cache must follow: a stale cached slab (or a cached slab of a deleted register) would become visible again
-				cacheUpd := func(y ssa.Instruction) bool {
-					fw2, ok := fieldWriteOf(y)
-					return ok && fw2.Ref.is(storageT, "cache") && fw2.Kind == "mapupdate" && sameValue(fw2.Key, fw.Key)
-				}
-				found := true
-				reachBackFrom(fn, in, func(y ssa.Instruction) bool {
-					if cacheUpd(y) {
-						return true
-					}
-					if c, _, ok := p.baseWrite(y); ok && len(c.Common().Args) > 0 && sameValue(c.Common().Args[0], fw.Key) {
-						found = false
-						return true
-					}
-					return false
-				})
-				if !found {
-					// or after the delete, before the iteration ends
-					found = true
-					h := loopHeadOf(in.Block())
-					reachFrom(fn, in, nil, func(y ssa.Instruction) bool {
-						if cacheUpd(y) {
-							return true
-						}
-						if _, isRet := y.(*ssa.Return); isRet {
-							found = false
-							return true
-						}
-						if h != nil && y == h.Instrs[0] {
-							found = false
-							return true
-						}
-						return false
-					})
-				}
-				r.Decide(found, R, "cache-follows:"+p.Name(fn), p.InstrPos(in), "the read cache entry of the same id is updated whenever the write-set entry is retired",
-					"a write-set entry is retired without updating the read cache entry of the same id: an older cached slab (or the cached slab of a deleted register) would become visible again")
-			case fw.Ref.Field == "cache" && fw.Kind == "mapupdate":
-				nCache++
-				cons := fmt.Sprintf("cache-move:%s", p.Name(fn))
-				hits, complete := p.precedingBaseWrites(fn, in, fw.Key)
-				if !complete || len(hits) == 0 {
-					r.Bad(R, cons, p.InstrPos(in), "read cache entry written in a commit routine without a preceding register write of the same id")
-					return
-				}
-				for _, h := range hits {
-					hv := callValue(h)
-					if hv == nil || !knownNil(hv, in.Block()) {
-						r.Bad(R, cons, p.InstrPos(in), "read cache updated although the register write may have failed")
-						return
-					}
-					_, _, kind, _ := p.registerWrite(h.(ssa.Instruction))
-					if kind == "Remove" {
-						if !isNilConst(stripTrivial(fw.Val)) {
-							r.Bad(R, cons, p.InstrPos(in), "after a register deletion the cache entry must be nil (known-deleted)")
+				func() {
+					switch {
+					case fw.Ref.Field == "deltas" && fw.Kind == "mapdelete":
+						nDel++
+						cons := fmt.Sprintf("delete-deltas:%s", p.Name(fn))
+						hits, complete := p.precedingBaseWrites(fn, in, fw.Key)
+						if !complete || len(hits) == 0 {
+							r.Bad(R, cons, p.InstrPos(in), "a write-set entry is deleted on a path on which no BaseStorage.Store/Remove of the same id has been issued: the change would be lost")
 							return
 						}
-					} else {
-						if !p.isDeltasLookupOf(fw.Val, fw.Key) {
-							r.Bad(R, cons, p.InstrPos(in), "after a register store the cache must receive the very slab object held in the write set under the same id")
+						for _, h := range hits {
+							hv := callValue(h)
+							if hv == nil || !knownNil(hv, in.Block()) {
+								r.Bad(R, cons, p.InstrPos(in), fmt.Sprintf("delete of the write-set entry is not dominated by the err == nil edge of the register write at %s: a failed write would still drop the pending change", p.InstrPos(h)))
+								return
+							}
+						}
+						r.Ok(R, cons, p.InstrPos(in), fmt.Sprintf("preceded on all paths by %d register write(s) of the same id, on their err == nil edge", len(hits)))
+						// the read cache must follow: a stale cached slab (or a cached slab of a deleted register) would become visible again
+						cacheUpd := func(y ssa.Instruction) bool {
+							for _, fw2 := range p.fieldWritesOfX(y) {
+								if fw2.Ref.is(storageT, "cache") && fw2.Kind == "mapupdate" && sameValue(fw2.Key, fw.Key) {
+									return true
+								}
+							}
+							return false
+						}
+						found := true
+						if cacheUpd(in) {
+							// the same helper call files the id in the cache and retires it
+							r.Decide(true, R, "cache-follows:"+p.Name(fn), p.InstrPos(in), "the read cache entry of the same id is updated by the helper call that retires the write-set entry", "")
 							return
 						}
+						reachBackFrom(fn, in, func(y ssa.Instruction) bool {
+							if cacheUpd(y) {
+								return true
+							}
+							if c, _, ok := p.baseWrite(y); ok && len(c.Common().Args) > 0 && sameValue(c.Common().Args[0], fw.Key) {
+								found = false
+								return true
+							}
+							return false
+						})
+						if !found {
+							// or after the delete, before the iteration ends
+							found = true
+							h := loopHeadOf(in.Block())
+							reachFrom(fn, in, nil, func(y ssa.Instruction) bool {
+								if cacheUpd(y) {
+									return true
+								}
+								if _, isRet := y.(*ssa.Return); isRet {
+									found = false
+									return true
+								}
+								if h != nil && y == h.Instrs[0] {
+									found = false
+									return true
+								}
+								return false
+							})
+						}
+						r.Decide(found, R, "cache-follows:"+p.Name(fn), p.InstrPos(in), "the read cache entry of the same id is updated whenever the write-set entry is retired",
+							"a write-set entry is retired without updating the read cache entry of the same id: an older cached slab (or the cached slab of a deleted register) would become visible again")
+					case fw.Ref.Field == "cache" && fw.Kind == "mapupdate":
+						nCache++
+						cons := fmt.Sprintf("cache-move:%s", p.Name(fn))
+						hits, complete := p.precedingBaseWrites(fn, in, fw.Key)
+						if !complete || len(hits) == 0 {
+							r.Bad(R, cons, p.InstrPos(in), "read cache entry written in a commit routine without a preceding register write of the same id")
+							return
+						}
+						for _, h := range hits {
+							hv := callValue(h)
+							if hv == nil || !knownNil(hv, in.Block()) {
+								r.Bad(R, cons, p.InstrPos(in), "read cache updated although the register write may have failed")
+								return
+							}
+							_, _, kind, _ := p.registerWrite(h.(ssa.Instruction))
+							if kind == "Remove" {
+								if !isNilConst(stripTrivial(fw.Val)) {
+									r.Bad(R, cons, p.InstrPos(in), "after a register deletion the cache entry must be nil (known-deleted)")
+									return
+								}
+							} else {
+								if !p.isDeltasLookupOf(fw.Val, fw.Key) {
+									r.Bad(R, cons, p.InstrPos(in), "after a register store the cache must receive the very slab object held in the write set under the same id")
+									return
+								}
+							}
+						}
+						r.Ok(R, cons, p.InstrPos(in), "cache receives nil after Remove / the write-set object after Store, on the success edge")
+					case fw.Kind == "assign" && (fw.Ref.Field == "deltas" || fw.Ref.Field == "cache"):
+						r.Bad(R, fmt.Sprintf("reset-%s:%s", fw.Ref.Field, p.Name(fn)), p.InstrPos(in),
+							"a commit routine replaces the whole "+fw.Ref.Field+" map: temp-address entries and entries not yet written would be dropped")
 					}
-				}
-				r.Ok(R, cons, p.InstrPos(in), "cache receives nil after Remove / the write-set object after Store, on the success edge")
-			case fw.Kind == "assign" && (fw.Ref.Field == "deltas" || fw.Ref.Field == "cache"):
-				r.Bad(R, fmt.Sprintf("reset-%s:%s", fw.Ref.Field, p.Name(fn)), p.InstrPos(in),
-					"a commit routine replaces the whole "+fw.Ref.Field+" map: temp-address entries and entries not yet written would be dropped")
+				}()
 			}
 		})
 	}
@@ -878,9 +890,11 @@ func (p *Prog) errorSurfaces(fn *ssa.Function, ev ssa.Value) (bool, string) {
 				okAll, why = false, "register write after a failure at "+p.InstrPos(x)
 				return
 			}
-			if fw, ok := p.fieldWriteOfX(x); ok && fw.Ref.Owner != nil && fw.Ref.Owner.Obj().Name() == storageT && storageLayerFields[fw.Ref.Field] {
-				okAll, why = false, "storage map write after a failure at "+p.InstrPos(x)
-				return
+			for _, fw := range p.fieldWritesOfX(x) {
+				if fw.Ref.Owner != nil && fw.Ref.Owner.Obj().Name() == storageT && storageLayerFields[fw.Ref.Field] {
+					okAll, why = false, "storage map write after a failure at "+p.InstrPos(x)
+					return
+				}
 			}
 			if ret, ok := x.(*ssa.Return); ok {
 				if !lastResultIsError(fn) {
